@@ -216,7 +216,20 @@ META["C18"] = {
     "technique": "explicit-state BFS over delivery sequences on the implementation with reference comparison; exhaustive prefix (truncation) enumeration",
 }
 
-ENGINE_OF = {"C18": "seq", "C17": "seq", "C20": "seq", "C07": "seq", "C15": "sched", "C16": "seq", "C14": "seq", "C13": "seq", "C05": "seq", "C11": "seq", "C10": "seq+sched", "C12": "sched", "C03": "seq", "C06": "seq+sched", "C09": "sched", "C08": "seq", "C02": "seq+sched", "C04": "seq+sched", "C01": "seq+sched"}
+META["C19"] = {
+    "level": "exploration",
+    "runner": "tools/c19_adapters.py",
+    "rule": "every sentinel.Entry call site of every non-test source under pkg/adapters is found by scanning the working tree and must be EXECUTED by the drivers (statement-coverage profile of the run; a site that is not executed makes the run non-exhaustive); per entry point mode the complete matrix {admitted, blocked by a rule} x {user fallback, default rejection} x {handler returns, handler returns an error, handler panics} is run through the real middleware / interceptor / wrapper inside the real framework dispatch (thorough: additionally every ordered pair of such requests on ONE resource); oracle per run: blocked => handler not invoked, fallback called once (or the default rejection observed), exactly one block recorded, no pass, no completion; admitted => handler exactly once, exactly one pass and exactly one completion, events in the order passed,handler,completed, a returned handler error is on the completed entry, in-flight gauge back to 0; never a panic that is not the handler's own; distinct = inputs + node counters + response class",
+    "assumptions": ["echo, fiber, gear, gin, grpc and hertz pin a released core (v1.0.2 / v1.0.4) in their own go.mod and their module graphs do not resolve offline against /repo: their adapter code is the working tree's, the core they link is that release; go-zero, goframe, iris (through a scratch -modfile), kitex, kratos and micro link /repo's core", "hertz and kitex: two third-party packages that no longer compile with the installed Go (sonic v1.3.0 top-level API, choleraehyq/pid) are replaced by stubs in the build overlay, and the packages' own tests (which need TCP ports) are blanked in the overlay; nothing of the adapter is replaced", "the framework around the adapter is the real one in its minimal configuration (no recovery middleware), driven synchronously in-process (no sockets)", "go-micro's server never applies a server.StreamWrapper itself; the driver applies it and then runs the stream handler, as user code has to"],
+    "budget_quick": 300,
+    "budget_thorough": 900,
+    "shards": 1,
+    "text": "Exhaustive enumeration of the finite input matrix over every adapter entry point found in the tree, executed on the real adapters; entry-point coverage is checked from the run's coverage profile, not from a hand-kept list.",
+    "level_note": "The quantifier over programs is the set of entry points present in the working tree: a new, undriven sentinel.Entry call site is reported as a cap (exhaustive:false), never silently skipped. Concurrency between requests is not part of this check.",
+    "technique": "bounded exhaustive enumeration of requests (and request pairs) on the implementation with an observer slot; scan + coverage cross-check of the program quantifier",
+}
+
+ENGINE_OF = {"C19": "matrix", "C18": "seq", "C17": "seq", "C20": "seq", "C07": "seq", "C15": "sched", "C16": "seq", "C14": "seq", "C13": "seq", "C05": "seq", "C11": "seq", "C10": "seq+sched", "C12": "sched", "C03": "seq", "C06": "seq+sched", "C09": "sched", "C08": "seq", "C02": "seq+sched", "C04": "seq+sched", "C01": "seq+sched"}
 
 # properties not claimed, with the reason (kept current)
 NOT_APPLICABLE = {}
